@@ -8,7 +8,8 @@ CONSTANTS ReqAlphabet,     \* set of requests
           EnterAlphabet,   \* set of requests used for errstate
           TrigKinds,       \* kinds that an input can trip in isolation
           Sites,           \* function kind -> set of call sites
-          Depth, MaxNest, Pick, Salt
+          Depth, MaxNest, Pick, Salt,
+          Focus            \* "" = the whole alphabet; "call" = only the events around the 'call' reaction
 VARIABLES st, hist
 vars == <<st, hist>>
 
@@ -20,6 +21,16 @@ Events(s) ==
   \cup UNION {{[act |-> "trigger", kind |-> k, site |-> x] : x \in Sites[k]} : k \in TrigKinds}
   \cup {[act |-> "noerror", site |-> x] : x \in {"constructor", "filter"}}
 
+\* the 'call' reaction needs three steps to be observed (register a callback, select the reaction, trip the
+\* kind): a focused alphabet makes those sequences exhaustive at depth 3-4
+CallFocus(e) ==
+  CASE e.act \in {"seterr", "enter"} -> \E i \in 1..Len(e.req) : e.req[i][2] = "call"
+    [] e.act = "seterrcall" -> e.kind # "bogus"
+    [] e.act = "trigger" -> e.kind \in {"empty", "obsdup"} /\ e.site = "constructor"
+    [] e.act \in {"exit", "exit_exc"} -> TRUE
+    [] OTHER -> FALSE
+FocusedEvents(s) == IF Focus = "call" THEN {e \in Events(s) : CallFocus(e)} ELSE Events(s)
+
 Init == st = [profile |-> Default, frames |-> <<>>, cbs |-> NoCbs] /\ hist = <<>>
 
 \* Pick[d] = how many of the enabled events are taken at depth d (0 = all); deterministic stride
@@ -30,7 +41,7 @@ Sample(S, k, salt) ==
        IN {sq[(salt % stride) + 1 + (j - 1) * stride] : j \in 1..k}
 Next ==
   /\ Len(hist) < Depth
-  /\ \E e \in Sample(Events(st), Pick[Len(hist) + 1], Salt + 3 * Len(hist) + Len(st.frames)) :
+  /\ \E e \in Sample(FocusedEvents(st), Pick[Len(hist) + 1], Salt + 3 * Len(hist) + Len(st.frames)) :
        /\ st' = Step(st, e)
        /\ hist' = Append(hist, e)
 
